@@ -16,11 +16,13 @@ struct Quantity {
     bare: Option<(f64, f64)>,
     conv32: fn(Token) -> Result<f64, Error>,
     conv64: fn(Token) -> Result<f64, Error>,
+    /// the same element received as a SCPI <numeric_value> of that quantity (NumericValue<Q>): Ok(None) = a keyword
+    nv64: fn(Token) -> Result<Option<f64>, Error>,
 }
 
 macro_rules! qty {
     ($name:literal, $table:expr, $bare:expr, $q:ident) => {
-        Quantity { name: $name, table: $table, bare: $bare, conv32: |t| q32::$q::try_from(t).map(|v| v.value as f64), conv64: |t| q64::$q::try_from(t).map(|v| v.value) }
+        Quantity { name: $name, table: $table, bare: $bare, conv32: |t| q32::$q::try_from(t).map(|v| v.value as f64), conv64: |t| q64::$q::try_from(t).map(|v| v.value), nv64: |t| scpi_contrib::scpi1999::NumericValue::<q64::$q>::try_from(t).map(|v| match v { scpi_contrib::scpi1999::NumericValue::Value(x) => Some(x.value), _ => None }) }
     };
 }
 
@@ -115,6 +117,17 @@ pub fn run(cfg: &Cfg, rep: &mut Report) {
                 [Ok(t @ Token::DecimalNumericSuffixProgramData(a, b))] if *a == &lit[..] && *b == &suffix[..] => {
                     let r1 = (q.conv64)(*t);
                     let r2 = (q.conv64)(tok);
+                    // a <numeric_value> parameter of the quantity "otherwise converts as its underlying type": same value, same error
+                    let r3 = (q.nv64)(*t);
+                    ctx.count("via-numeric_value-wrapper");
+                    let same = match (&r1, &r3) {
+                        (Ok(a), Ok(Some(b))) => a.to_bits() == b.to_bits(),
+                        (Err(a), Err(b)) => a.get_code() == b.get_code(),
+                        _ => false,
+                    };
+                    if !same {
+                        ctx.violation(&format!("C18:{}:numeric_value-of-the-quantity-converts-differently", q.name), jobj(&[("text", jbytes(&text)), ("quantity", jstr(&format!("{:?}", r1.as_ref().map_err(|e| e.get_code())))), ("numeric_value", jstr(&format!("{:?}", r3.as_ref().map_err(|e| e.get_code()))))]));
+                    }
                     if r1.as_ref().ok() != r2.as_ref().ok() {
                         ctx.violation("C18:differs-through-lexer", jobj(&[("text", jbytes(&text))]));
                     }
